@@ -20,6 +20,7 @@ RULE = (
     "exactly once; collapse/bandpass/read_chan/dedisperse/compute_stats for several gulps == the same on a 32-bit .fil written from the whole "
     "read; header quantities are plain int/float in MHz/s/MJD; two files of 150 sub-integrations (300 thorough) with reduced request sets. Non-trivial = request not aligned to sub-integration boundaries or > 1 block"
 )
+SCALE_LANE = 'two files of 150 (thorough 300) sub-integrations with row-varying scales, offsets and weights; reduced request sets'
 ASSUMPTIONS = [
     "files are synthesised with astropy.io.fits following the layout of the repository's sample file (DATA column TPF, sub-byte samples packed MSB-first along the flattened TPF order)",
     "layouts the reader cannot read in full are outside the statement's antecedent and are reported as out_of_scope, not as violations",
